@@ -48,6 +48,9 @@ Rules (the statement, made explicit):
                                                         reads the written length, elements 1..n read as values,
                                                         n+1 is an invalid index, the whole value is their
                                                         concatenation)
+ one array, every index class (array_census): whatever the content is - also for arrays a device computes per request, which
+    the dictionary does not predict - the length at index 0, the elements at 1..n, the refusal at n+1 and the value read
+    without an index have to describe the same array: elements 1..n, one after the other, are the octets of the whole value
  a refused write changes nothing anywhere; an accepted write changes exactly the addressed property/element
  (growing an array through index 0 creates elements whose value the standard leaves to the device: the
  model marks them unknown and learns them from the next read).
@@ -106,6 +109,53 @@ def dec_unsigned(octets):
 
 def unsigned_item(n):
     return (UNSIGNED, enc_unsigned(n))
+
+
+CENSUS_MAX = 512        # an array longer than this is not walked element by element (none of the devices has one)
+
+
+def array_census(whole, length, elements, beyond):
+    """Internal consistency of ONE array property as a device serves it (clause 12: "index 0 = number of elements,
+    1..n = the elements"; statement: "index 0 with their length, indexes 1..n with the elements and anything else with
+    an invalid-array-index error").  No knowledge of the content is needed: whatever the array is, the same array has
+    to be behind every index class.
+
+        whole      octets of the value read without an index (the elements, concatenated)
+        length     reply to the read of index 0
+        elements   replies to the reads of index 1..n, n = the number index 0 gave (empty if it gave none)
+        beyond     reply to the read of index n+1 (None: not asked)
+
+    Replies are the neutral tuples ("ack", octets) | ("error", class, code) | ("reject", reason).  BACnet encodings are
+    self-delimiting, so "element i is what stands at position i of the whole value" is decided on octets: the
+    elements, each a complete non-empty encoding, one after the other, have to give exactly the octets of the whole
+    value.  -> list of (what, detail); empty = consistent."""
+    out = []
+    n = dec_unsigned(length[1]) if length[0] == "ack" else None
+    if n is None:
+        return [("index-0-is-not-an-unsigned-length", {"index-0": length})]
+    if len(elements) != n:
+        raise ValueError("census: %d element replies for a length of %d" % (len(elements), n))
+    off = 0
+    for i, r in enumerate(elements, 1):
+        if r[0] != "ack":
+            out.append(("element-within-length-not-readable", {"index": i, "length": n, "reply": r}))
+            return out
+        e = r[1]
+        if len(e) == 0:
+            out.append(("element-is-empty", {"index": i}))
+            return out
+        if whole[off:off + len(e)] != e:
+            out.append(("element-differs-from-element-of-whole-array",
+                        {"index": i, "element-read": e, "whole-array-from-there": whole[off:off + max(len(e), 8)],
+                         "offset": off}))
+            return out
+        off += len(e)
+    if off != len(whole):
+        out.append(("length-differs-from-whole-array",
+                    {"length": n, "octets-of-the-elements": off, "octets-of-the-whole-array": len(whole)}))
+    if beyond is not None and (beyond[0] == "ack" or tuple(beyond) not in ADMISSIBLE["bad-array-index"]):
+        out.append(("index-beyond-length-not-refused-as-invalid-index", {"index": n + 1, "reply": beyond}))
+    return out
 
 
 NULL_ITEM = (NULL, b"\x00")
